@@ -195,8 +195,9 @@ theorem roundtrip_rel_err (a k1 k2 δ1 δ2 δ3 δ4 u : ℝ) (hk : k1 * k2 = 1) (
 end conv
 
 /-! ## floating-point range of `normalize` -/
-/-- `%` is exact in IEEE arithmetic; the only rounded operation is `rem + T`.  With a monotone
-rounding that fixes `0` and `T` the result lies in the closed range `[0, T]`. -/
+/-- Modelling assumption stated as a comment only (it is neither a hypothesis nor proved): `%` is exact in IEEE arithmetic, so
+the remainder enters as a real `rem` with `-T < rem < T` and the only rounded operation is `rem + T`.  What is proved: with a
+monotone `rnd : ℝ → ℝ` that fixes `0` and `T`, `if rem < 0 then rnd (rem + T) else rem` lies in the closed range `[0, T]`. -/
 theorem normalize_range_fl (rnd : ℝ → ℝ) (hm : Monotone rnd) (T rem : ℝ) (h0 : rnd 0 = 0)
     (hT' : rnd T = T) (hrem : -T < rem ∧ rem < T) :
     let r := if rem < 0 then rnd (rem + T) else rem
